@@ -59,28 +59,39 @@ class _W:
             pass
 
 
-def run_cases(cases, init_name='all', nproc=None, timeout=10.0, batch=20, start_timeout=120.0, progress=None):
+def run_cases(cases, init_name='all', nproc=None, timeout=10.0, batch=20, start_timeout=120.0, progress=None, groups=None):
     """Run every case through drivers.run_case in worker processes. Returns list of observations
-    aligned with `cases`."""
+    aligned with `cases`.  `groups`: lists of case indices; each group is run in the given order by one worker
+    process without interruption (histories on one set of cached models); otherwise cases go out in batches."""
     n = len(cases)
     results = [None] * n
     if n == 0:
         return results
-    nproc = max(1, min(nproc or common.NPROC, (n + batch - 1) // batch))
     ctx = mp.get_context('fork')
-    queue = list(range(n))
-    queue.reverse()
+    if groups is not None:
+        gqueue = [list(g) for g in groups if g]
+        gqueue.reverse()
+        nproc = max(1, min(nproc or common.NPROC, len(gqueue)))
+        queue = []
+    else:
+        gqueue = None
+        nproc = max(1, min(nproc or common.NPROC, (n + batch - 1) // batch))
+        queue = list(range(n))
+        queue.reverse()
     workers = [_W(ctx, init_name) for _ in range(nproc)]
     done = 0
     t_report = time.time()
 
     def feed(w):
-        if not queue:
+        if not queue and not gqueue:
             w.batch = []
             return False
         b = []
-        while queue and len(b) < batch:
-            b.append(queue.pop())
+        if queue or gqueue is None:
+            while queue and len(b) < batch:
+                b.append(queue.pop())
+        else:
+            b = gqueue.pop()
         w.batch, w.pos, w.last = b, 0, time.time()
         w.parent.send([(i, cases[i]) for i in b])
         return True
@@ -132,7 +143,7 @@ def run_cases(cases, init_name='all', nproc=None, timeout=10.0, batch=20, start_
                         sys.stderr.write('MACHINERY: worker did not start within %ss\n' % start_timeout)
                         raise SystemExit(2)
                     w.kill()
-                    if queue:
+                    if queue or gqueue:
                         workers[wi] = _W(ctx, init_name)
                     else:
                         active.discard(wi)
